@@ -98,7 +98,7 @@ def build_inputs(c):
     series = [make_series(rng, T, c["N"], c["n_regimes"], c["scale"], offset=c.get("offset", 0.0))
               for T in c["lens"]]
     if c.get("degenerate") == "duplicated":
-        series = [np.repeat(s[: max(len(s) // 3, c["W"] + 2)], 3, axis=0)[: len(s)] for s in series]
+        series = [np.repeat(s[: max(-(-len(s) // 3), c["W"] + 2)], 3, axis=0)[: len(s)] for s in series]   # same length
     elif c.get("degenerate") == "constant_sensor":
         for s in series:
             s[:, 0] = 1.25
